@@ -47,7 +47,7 @@ MOD = st.fixed_dictionaries({'target': st.sampled_from(['file', 'file', 'file', 
 
 
 def strategy(tier):
-    w = {'mixed': 4, 'growshrink': 4, 'deep': 1, 'links': 5, 'boot': 1, 'hybrid': 0, 'exactfill': 4}
+    w = {'mixed': 4, 'growshrink': 4, 'deep': 1, 'links': 5, 'boot': 2, 'hybrid': 0, 'exactfill': 4, 'bootlinks': 1}
     mods = st.lists(MOD, min_size=1, max_size=3)
     # a third of the cases modify an independently re-mastered ("foreign") version of the image (vf/indep/remaster.py)
     foreign = st.integers(0, 1 << 30).map(lambda x: [{'foreign': gen.foreign_style(x)}])
@@ -144,8 +144,14 @@ def oracle(program, mods):
             path = '/NOSUCH%d.;1' % k
             old = 10
             tgt = 'missing'
-        if blob is not None and (blob.length > (1 << 20) or blob.bit or blob.boot_refs):
+        if blob is not None and blob.length > (1 << 20):
             continue
+        if blob is not None and blob.bit and not blob.boot_refs:
+            continue        # a former boot file whose boot info table the library keeps patching: bytes 8..63 are not predictable
+        if blob is not None and blob.boot_refs:
+            # a file that El Torito boots from is described by the boot catalog (and a boot info table) as well: the library
+            # documents no support for rewriting those in place, so the call has to be refused like one on a directory
+            tgt = 'bootfile'
         nl = new_length(mod['len'], old)
         cid = 700000 + 1000 * k + (blob.id if blob is not None else 0)
         data = content(cid, nl)
